@@ -898,6 +898,19 @@ fn g_cond(rng: &mut Rng, depth: u32) -> Cond {
 fn simple_name(rng: &mut Rng) -> String {
     pk(rng, &["next-rule", "validation", "wf_1", "Phase 2", "g", "étape", "discounts", "a, b", "x=y; z", "p) q"]).to_string()
 }
+/// ScheduleRule delays: ordinary millisecond values, and integers that f64 cannot represent exactly (at and around 2^53, odd
+/// numbers above it, nanosecond-resolution stamps, around 2^62 / i64::MAX) - the delay must come back as `i as u64`, digit by digit
+fn sched_delay(rng: &mut Rng) -> u64 {
+    if rng.chance(1, 2) {
+        return rng.below(100000);
+    }
+    const B: [u64; 10] = [
+        9007199254740991, 9007199254740992, 9007199254740993, 9007199254740995, 1700000000123456789, 4611686018427387903,
+        4611686018427387905, 9223372036854775805, 9223372036854775806, 9223372036854775807,
+    ];
+    if rng.chance(1, 2) { *rng.pick(&B) } else { (1u64 << 53) + 1 + 2 * rng.below(1u64 << 40) }
+}
+
 fn g_stmt(rng: &mut Rng) -> Stmt {
     match rng.below(16) {
         0..=5 => {
@@ -914,7 +927,7 @@ fn g_stmt(rng: &mut Rng) -> Stmt {
         10 => Stmt::Retract(pk(rng, &OBJS).to_string()),
         11 | 12 => Stmt::Log(if rng.chance(1, 5) { Lit::Int(rng.below(100) as i64) } else if rng.chance(1, 5) { g_concat(rng) } else { g_str(rng) }),
         13 => Stmt::Activate(simple_name(rng)),
-        14 => Stmt::Schedule(rng.below(100000), simple_name(rng)),
+        14 => Stmt::Schedule(sched_delay(rng), simple_name(rng)),
         _ => Stmt::Complete(simple_name(rng)),
     }
 }
@@ -1460,7 +1473,7 @@ fn gen(rng: &mut Rng, n: usize, tier: &str) -> Vec<String> {
                 }
                 5 => {
                     if !dq { continue; }
-                    r.stmts = vec![match bi % 3 { 0 => Stmt::Activate(b.to_string()), 1 => Stmt::Complete(b.to_string()), _ => Stmt::Schedule(rng.below(100000), b.to_string()) }];
+                    r.stmts = vec![match bi % 3 { 0 => Stmt::Activate(b.to_string()), 1 => Stmt::Complete(b.to_string()), _ => Stmt::Schedule(sched_delay(rng), b.to_string()) }];
                 }
                 6 => {
                     stream = "M:method";
@@ -1679,6 +1692,15 @@ fn corpus() -> Vec<String> {
                 Stmt::Activate("g, h".into()),
                 Stmt::Complete("w(1), z".into()),
                 Stmt::Set("Y".into(), Lit::Arr(vec![Lit::Str('"', "a,b".into()), Lit::Str('\'', "c]".into()), Lit::Int(2)])),
+            ];
+        })),
+        // seeded C04-12: the ScheduleRule delay must not go through f64 (2^53+1, a nanosecond stamp, i64::MAX)
+        one("G", "rule \"A\" { when X == 1 then ScheduleRule(9007199254740993, \"a\"); ScheduleRule(1700000000123456789, \"b\"); ScheduleRule(9223372036854775807, \"c\"); }", base(&|r| {
+            r.cond = x1.clone();
+            r.stmts = vec![
+                Stmt::Schedule(9007199254740993, "a".into()),
+                Stmt::Schedule(1700000000123456789, "b".into()),
+                Stmt::Schedule(9223372036854775807, "c".into()),
             ];
         })),
         one("M:method", "rule \"A\" { when X == 1 then $Car.set(\"a, b\", 2); }", base(&|r| {
